@@ -151,7 +151,8 @@ def task(R, item):
                             R.ob("C08d-pixel-count-equals-window", "%s|repeat-count" % tag, cnt == area,
                                  "fill_solid repeats the colour %r times, the window holds %r pixels" % (cnt, area),
                                  sample={"entry": nm, "count": repr(cnt), "window_area": repr(area)})
-                    if nm == "fill_contiguous":
+                    if nm == "fill_contiguous" or (nm == "fill_solid" and not [s for s in evs if s.cls == "REP"]):
+                        # (a solid fill written as a stream of equal colours is held to the same count clause)
                         pix = [s for s in evs if s.cls == "PIX"]
                         if pix:
                             it = pix[0].ev.args[1]
@@ -165,5 +166,5 @@ def task(R, item):
                                 n = f.simplify(n) if n is not None else None
                                 okk = n is not None
                             R.ob("C08d-pixel-count-equals-window", "%s|take-limit" % tag, okk and n == area,
-                                 "fill_contiguous limits the colour stream to %r pixels (iterator %s%s), the window holds %r"
+                                 "the fill limits the colour stream to %r pixels (iterator %s%s), the window holds %r"
                                  % (n, getattr(it, "name", it), "; " + why if why else "", area), sample={"entry": nm, "take": repr(n), "window_area": repr(area)})
